@@ -110,7 +110,7 @@ PROPS["C16"] = {
     "probes_expected": ["wait_slept", "wait_exact", "wait_overrun", "caught_up_after_overrun", "wait_after_free", "freed_by_exit", "freed_by_free_twice", "entered_later", "stale_wait_on_released_instance"],
     "state_measure": "(op, wait class) pairs and their successions, hashed",
     "real_vs_stub": {"real": ["robotpy_ext.misc.precise_delay.NotifierDelay", "HAL notifier bookkeeping (initialize/update/wait/stop/clean)", "HAL simulated clock"],
-                     "simulated": ["the loop body durations", "who advances time while the loop sleeps (hal.waitForNotifierAlarm seam)", "late wake-ups"]},
+                     "simulated": ["the loop body durations", "who advances time while the loop sleeps (hal.waitForNotifierAlarm seam; per-handle alarms read through a wrapped hal.updateNotifierAlarm)", "late wake-ups", "a user-installed RobotController time source (frozen / 3 s ahead) in a tenth of the runs"]},
     "assumptions": ["single thread", "wake-ups are never early (the real HAL wait only returns once the clock reached the alarm)"],
 }
 PROPS["C19"] = {
@@ -124,7 +124,7 @@ PROPS["C19"] = {
                         "watchdog_expired_True", "watchdog_expired_False"],
     "state_measure": "(input, outcome) pairs and their successions, hashed",
     "real_vs_stub": {"real": ["robotpy_ext.control.toggle.Toggle", "robotpy_ext.control.button_debouncer.ButtonDebouncer", "robotpy_ext.misc.periodic_filter.PeriodicFilter", "robotpy_ext.misc.simple_watchdog.SimpleWatchdog", "HAL simulated clock", "logging"],
-                     "simulated": ["joystick (plain object with getRawButton; in some runs it samples the same Toggle while being read)", "time.monotonic (shim onto the simulated clock)", "callers and their timing"]},
+                     "simulated": ["joystick (plain object with getRawButton; in some runs it samples the same Toggle while being read, in some it also has wpilib's getRawButtonPressed latch and is tapped between samples)", "a user-installed RobotController time source (frozen / 3 s ahead) in a tenth of the runs", "several logger names through one PeriodicFilter", "time.monotonic (shim onto the simulated clock)", "callers and their timing"]},
     "assumptions": ["single thread", "ButtonDebouncer: before its first True the 'last True' is taken as boot (clock 0)", "SimpleWatchdog checked only after its first reset/enable/setTimeout"],
 }
 
@@ -139,7 +139,7 @@ PROPS["C09"] = {
     "state_measure": "(op, tunable kind, writeDefault, subtable, owner prefix) combinations exercised, hashed (no transition measure)",
     "real_vs_stub": {"real": ["magicbot.magic_tunable (tunable, setup_tunables)", "ntcore local instance, typed topics, struct serialisation"],
                      "simulated": ["dashboard / NT client (in-process typed publishers and subscribers)", "robot-code restart (new instance bound to the same name)"]},
-    "assumptions": ["single thread; local NetworkTables only", "client writes use the topic's own type"],
+    "assumptions": ["single thread; local NetworkTables only", "client writes use the topic's own type", "struct values are compared component by component, exactly (not with wpimath's tolerant ==)"],
 }
 
 ENGINE_TEXT["sel"] = "AutonomousModeSelector on a real generated package directory (faulty modules/constructors, duplicates, flags, permuted listing order, FMS on/off), driven through start/periodic/disable and run() periods with dashboard selections in between"
